@@ -708,7 +708,7 @@ def _scan(fb):
                 kk = None if isctl else key(base6)
                 if not alts:
                     if not isctl:
-                        nc['chain:' + kk] = '%s:%d' % (f.file, x6.l)
+                        nc['chain:' + kk] = ('%s:%d' % (f.file, x6.l), owner(f))
                     continue
                 why = best(alts)[0]
                 if isctl:
@@ -745,7 +745,7 @@ def _scan(fb):
             alts = mirror_alts(f.body, g.body)
             if not alts:
                 if not isctl:
-                    nc['pair:' + k_] = '%s:%d' % (f.file, f.line)
+                    nc['pair:' + k_] = ('%s:%d' % (f.file, f.line), owner(f))
                 continue
             why, ren7 = best(alts)
             if not why:
@@ -812,10 +812,8 @@ def _reference(comparable, nc):
     if not os.path.exists(REF):
         raise AnalysisBroken('rules/mirror_reference.json is missing')
     ref = set(json.load(open(REF))['comparable'])
-    lost = sorted(k for k in ref if k in nc)
-    if lost:
-        raise AnalysisBroken('mirror rule: the two sides of %s (%s) no longer have the same shape (a statement, call or operator exists on one side only); '
-                             'they were mirror images on the confirmed tree' % (lost[0], nc[lost[0]]))
+    # reported as UNRECOGNISED instances of the owning property by run(): neither a pass nor a violation there, and no obstacle for the others
+    _CACHE['lost'] = [(k, nc[k][0], nc[k][1]) for k in sorted(ref) if k in nc]
 
 
 def _size_loop(n):
@@ -842,6 +840,12 @@ def run(pid, fb, rep, only=None):
     """report the shape-rule instances inside the functions owned by property pid as rules R<nn>.S*"""
     res = _scan(fb)
     nn = pid[1:]
+    for key_, where_, own_ in _CACHE.get('lost', []):
+        if own_ == pid:
+            rid_ = 'R%s.%s' % (nn, 'S6' if key_.startswith('chain:') else 'S7')
+            if rid_ not in rep.rules:
+                rep.rule(rid_, TEXT['S6' if key_.startswith('chain:') else 'S7'] + ' (generic shape rule over the functions this property owns)', floor=1)
+            rep.unrec(rid_, key_, where_, 'the two sides no longer have the same shape (a statement, call or operator exists on one side only); they were mirror images on the confirmed tree')
     for s in sorted(TEXT):
         if only and s not in only:
             continue
